@@ -83,6 +83,54 @@ def err_class(e: BaseException) -> int:
 # ---------------------------------------------------------------------------
 # mappers of the harness (callback style and derived-class style)
 # ---------------------------------------------------------------------------
+class FalsyBool:
+    """value-equal object whose truth value is False (__bool__)"""
+
+    def __init__(self, v):
+        self.v = v
+
+    def __eq__(self, other):
+        return isinstance(other, FalsyBool) and self.v == other.v
+
+    def __hash__(self):
+        return hash(("FalsyBool", self.v))
+
+    def __bool__(self):
+        return False
+
+    def __repr__(self):
+        return f"Z{self.v}"
+
+
+class EmptyLen:
+    """value-equal container-like object that is empty (__len__ == 0), hence falsy"""
+
+    def __init__(self, v):
+        self.v = v
+
+    def __eq__(self, other):
+        return isinstance(other, EmptyLen) and self.v == other.v
+
+    def __hash__(self):
+        return hash(("EmptyLen", self.v))
+
+    def __len__(self):
+        return 0
+
+    def __repr__(self):
+        return f"L{self.v}"
+
+
+def make_obj(spec: str):
+    """build.make_obj plus  z:<v> (FalsyBool)  l:<v> (EmptyLen);  s: / i:0 / t: give "", 0, ()"""
+    k, _, v = spec.partition(":")
+    if k == "z":
+        return FalsyBool(int(v))
+    if k == "l":
+        return EmptyLen(int(v))
+    return B.make_obj(spec)
+
+
 def fs_obj(spec):
     """f:<name>:<size>:<mdate>  |  D:<name>"""
     from nutree.fs import FileSystemEntry
@@ -100,6 +148,10 @@ def is_fs_entry(o):
 def tag_val(o):
     if is_fs_entry(o):
         return "F", [o.name, o.is_dir, o.size, o.mdate]
+    if isinstance(o, FalsyBool):
+        return "z", o.v
+    if isinstance(o, EmptyLen):
+        return "l", o.v
     if isinstance(o, H.EqObj):
         return "e", o.v
     if isinstance(o, H.PlainObj):
@@ -151,6 +203,10 @@ def deser_mapper(parent, data):
         return B.DC(v)
     if t == "w":
         return DictWrapper({"v": v})
+    if t == "z":
+        return FalsyBool(v)
+    if t == "l":
+        return EmptyLen(v)
     raise ValueError(t)
 
 
@@ -160,8 +216,8 @@ CLASH_KM = {"t": "v", "n": "str", "kind": "data_id", "str": "x"}     # short nam
 PARTIAL_VM = {"t": ["e", "e", "i"], "kind": ["a"]}                   # does not cover all values; a duplicate
 TREE_DEFAULT_KM = {"data_id": "i", "str": "s"}    # Tree.DEFAULT_KEY_MAP: "s" is also FileSystemTree's size key (finding D51)
 CUSTOM_KM_FS = {"n": "nm", "m": "mt", "unused": "u"}
-CUSTOM_VM = {"t": ["e", "p", "i", "t", "d", "w"]}
-CUSTOM_VM_TYPED = {"t": ["w", "d", "t", "i", "p", "e"], "kind": ["zz", "c", "b", "a", "child"]}
+CUSTOM_VM = {"t": ["e", "p", "i", "t", "d", "w", "z", "l"]}
+CUSTOM_VM_TYPED = {"t": ["l", "z", "w", "d", "t", "i", "p", "e"], "kind": ["zz", "c", "b", "a", "child"]}
 
 _DERIVED = {}
 
@@ -201,7 +257,7 @@ def build_tree(desc):
         t = FileSystemTree("T")
         B.add_nodes(t._root, desc["nodes"], U, False)
         return t, U
-    U = B.make_universe(desc["univ"])
+    U = H.Universe([make_obj(sp) for sp in desc["univ"]])
     if desc.get("mapper") == "derived":
         cls = derived_class(typed, desc.get("calc"))
     else:
@@ -351,7 +407,17 @@ def py_layout(root, *, typed, kmap, vmap, meta, mapper, version):
 # ---------------------------------------------------------------------------
 # observation of a loaded tree (shape of Serialize.sx_loaded) and env tables
 # ---------------------------------------------------------------------------
-def obs_loaded_tree(tree):
+def safe_hash(d):
+    try:
+        return hash(d)
+    except TypeError:      # e.g. a raw entry dict installed as data by a defective reader
+        return 0
+
+
+def obs_loaded_tree(tree, doc_nodes=None):
+    """doc_nodes: the "nodes" list of the document that was loaded.  The identity of a rebuilt int / tuple is not
+    observable (CPython shares small ints and the empty tuple), so for such data the model's notion is used:
+    the entry that materialised the node (the reference target, or the node's own entry)."""
     nodes = B.all_nodes(tree._root)
     order = sorted(nodes, key=H.nid)
     rank = {id(n): i + 1 for i, n in enumerate(order)}
@@ -359,13 +425,23 @@ def obs_loaded_tree(tree):
     for n in order:
         first_obj.setdefault(id(n._data), rank[id(n)])
 
+    def obj_of(n):
+        d = n._data
+        if isinstance(d, str):
+            return -1
+        r = rank[id(n)]
+        if isinstance(d, (int, tuple)) and doc_nodes is not None and r <= len(doc_nodes):
+            e = doc_nodes[r - 1]
+            ref = e[1] if isinstance(e, list) and len(e) == 2 else None
+            return ref if isinstance(ref, int) and not isinstance(ref, bool) else r
+        return first_obj[id(d)]
+
     def go(n):
         d = n._data
-        isstr = isinstance(d, str)
-        return [rank[id(n)], isstr, f"{d}", hash(d), H.sx_did(n._data_id), H.sx_kind(getattr(n, "_kind", None)),
-                -1 if isstr else first_obj[id(d)], [go(c) for c in (n._children or [])]]
+        return [rank[id(n)], isinstance(d, str), f"{d}", safe_hash(d), H.sx_did(n._data_id), H.sx_kind(getattr(n, "_kind", None)),
+                obj_of(n), [go(c) for c in (n._children or [])]]
 
-    hashes = [(rank[id(n)], hash(n._data)) for n in order]
+    hashes = [(rank[id(n)], safe_hash(n._data)) for n in order]
     return [go(c) for c in (tree._root._children or [])], hashes
 
 
@@ -378,7 +454,7 @@ def failed_load_facts(load):
     except Exception:  # noqa: BLE001
         pass
     nodes = [n for n in H._KEEP[base:] if getattr(n, "_parent", None) is not None]
-    return [(i + 1, hash(n._data)) for i, n in enumerate(nodes)], [(i + 1, f"{n._data}") for i, n in enumerate(nodes)]
+    return [(i + 1, safe_hash(n._data)) for i, n in enumerate(nodes)], [(i + 1, f"{n._data}") for i, n in enumerate(nodes)]
 
 
 def loaded_names(tree):
@@ -456,7 +532,10 @@ def value_repr(d):
     """what a rebuilt data object must reproduce (type and content)"""
     if isinstance(d, str):
         return ("s", d)
-    t, v = tag_val(d)
+    try:
+        t, v = tag_val(d)
+    except TypeError:
+        return ("?", repr(d))     # not a data object of the universe (e.g. a raw entry dict)
     return (t, repr(v))
 
 
@@ -464,7 +543,11 @@ def id_stable(n) -> bool:
     """the node's data_id survives a rebuild of its data: explicit/callback ids,
     strings and value-hashed data; not the default id of identity-hashed data"""
     d = n._data
-    if n._data_id != hash(d):
+    try:
+        h = hash(d)
+    except TypeError:      # unhashable data (a defective reader installed a raw dict): the id was given explicitly
+        return True
+    if n._data_id != h:
         return True
     return not (isinstance(d, (H.PlainObj, DictWrapper)) or is_fs_entry(d))
 
